@@ -351,7 +351,7 @@ impl G {
         let f = |s: Vec<SymExpr>| Self::inp('f', Sym::Shape(s));
         let i32s = |l: &[i32]| Self::inp('i', Sym::Vector(l.iter().map(|x| v(*x)).collect()));
         let (a, b, c, d) = (mk_var(0, true), mk_var(1, true), mk_var(2, true), mk_var(3, true));
-        match self.r.below(46) {
+        match self.r.below(52) {
             0 => { let op = self.r.pick(&["Max", "Min", "Sum", "Mean"]); let n = 1 + self.r.below(3) as usize;
                    let (x, y) = self.bcast_pair(); let (_, z) = self.bcast_pair();
                    let mut ins = vec![Self::inp('f', x)]; if n > 1 { ins.push(Self::inp('f', y)); } if n > 2 { ins.push(Self::inp('f', z)); }
@@ -514,6 +514,21 @@ impl G {
                     self.case("Upsample", vec![("mode", Attr::Str("nearest".into()))], 1, vec![f(s), sc]) }
             44 => { let x = f(vec![self.dim(), v(2), v(3), v(3)]); let grid = Self::inpd('f', Sym::Shape(vec![self.dim(), a.clone(), v(2), v(2)]), vec![0]);
                     self.case("GridSample", vec![], 1, vec![x, grid]) }
+            46 => { let op = self.r.pick(&["RandomNormal", "RandomUniform"]); let sh: Vec<i64> = (0..1 + self.r.below(3)).map(|_| self.r.below(4) as i64).collect();
+                    self.case(op, vec![("shape", Attr::Ints(sh))], 1, vec![]) }
+            47 => { let op = self.r.pick(&["RandomNormalLike", "RandomUniformLike"]); let s = { let rk = self.rank(); self.shape(rk) }; self.case(op, vec![], 1, vec![f(s)]) }
+            48 => { let s = vec![self.dim(), self.r.pick(&[v(3), c.clone()])]; let k = 1 + self.r.below(3) as i64;
+                    self.case("Multinomial", vec![("sample_size", Attr::Int(k))], 1, vec![Self::inpd('f', Sym::Shape(s), vec![1])]) }
+            49 => { let op = self.r.pick(&["BiasGelu@com.microsoft", "FastGelu@com.microsoft", "Gelu@com.microsoft", "QuickGelu@com.microsoft"]);
+                    let last = self.r.pick(&[v(3), c.clone()]); let s = vec![self.dim(), last.clone()];
+                    let ins = if op.starts_with("BiasGelu") { vec![f(s), f(vec![last])] } else { vec![f(s)] };
+                    self.case(op, vec![], 1, ins) }
+            50 => { let last = self.r.pick(&[v(3), c.clone()]); let s = vec![self.dim(), last.clone()];
+                    if self.r.chance(1, 2) { self.case("SimplifiedLayerNormalization", vec![("epsilon", Attr::Float(0.00001))], 1, vec![f(s), f(vec![last])]) }
+                    else { self.case("SkipSimplifiedLayerNormalization@com.microsoft", vec![("epsilon", Attr::Float(0.00001))], 1, vec![f(s.clone()), f(s), f(vec![last])]) } }
+            51 => { if self.r.chance(1, 2) { let bt = self.r.pick(&[v(2), b.clone()]);
+                        self.case("ReverseSequence", vec![], 1, vec![f(vec![v(3), bt.clone()]), Self::inpd('i', Sym::Shape(vec![bt]), vec![1, 2])]) }
+                    else { let n = self.r.pick(&[v(3), a.clone()]); self.case("Scatter", vec![], 1, vec![f(vec![n, v(2)]), Self::inpd('i', Sym::Shape(vec![v(1), v(2)]), vec![0]), f(vec![v(1), v(2)])]) } }
             _ => { let nb = self.r.pick(&[v(1), a.clone()]); let n = self.r.pick(&[v(3), b.clone()]);
                    let boxes = Self::inpd('f', Sym::Shape(vec![nb.clone(), n.clone(), v(4)]), vec![0, 0, 1, 1]);
                    let scores = Self::inpd('f', Sym::Shape(vec![nb, v(1), n]), vec![1]);
